@@ -1001,13 +1001,14 @@ def finalize_case(case, rng, nprng, P):
     numberize(rng, case, P.get("num_p", 0.2))
     apply_numberized_to_eff(case)
     case.finish()
-    mr = case.note.get("mark_reduced")
-    if mr:
-        mr = set(mr) | {case.note["numberized"][n].uid for n in mr if n in case.note.get("numberized", {})}
+    if case.family in ("reduce", "dot") and case.outputs is not None and not any(l.bracket for e in case.xin for l in xleaves(e)):
+        case.note.setdefault("mark_reduced", [])  # no bracket at all: the un-bracketed mode applies
+    if case.note.get("mark_reduced") is not None:
+        # un-bracketed reduce/dot: every input axis (named or numeric) that is missing from the output is bracketed
+        out_names = {l.tname for e in case.xout for l in xleaves(e)}
         for e in case.xin:
             for l in xleaves(e):
-                if l.tname in mr:
-                    l.bracket = True
+                l.bracket = l.tname not in out_names
     choose_kwargs(rng, case)
     if not case.dtypes:
         case.dtypes = [rng.choice(["float64", "float64", "int64"]) for _ in case.inputs]
